@@ -165,7 +165,12 @@ private:
         throw std::runtime_error("Non-matching dimensions in assignment to SU_vector with external storage");
       if(!WrapperType::allowTargetResize)
         throw std::runtime_error("Non-matching dimensions in SU_vector assignment");
-      //can resize
+      //can resize; if new storage is needed obtain it before giving up the
+      //old, so that a failed allocation leaves this vector as it was
+      double* new_components=nullptr;
+      unsigned char new_offset=0;
+      if(!proxy.mayStealArg1() && !proxy.mayStealArg2())
+        alloc_aligned(proxy.suv1.dim,proxy.suv1.size,new_components,new_offset);
       if(isinit)
         deallocate_mem();
       dim=proxy.suv1.dim;
@@ -191,7 +196,8 @@ private:
         }
       }
       else{
-        alloc_aligned(dim,size,components,ptr_offset);
+        components=new_components;
+        ptr_offset=new_offset;
         isinit=true;
       }
     }
